@@ -27,18 +27,20 @@ type c39op struct {
 	Uses []string `json:"uses,omitempty"`
 	// pre-existing globals this evaluation reads first (put $name), re-declares
 	// (var name = value) and deletes (del name)
-	Reads   []string          `json:"reads,omitempty"`
-	Sets    map[string]string `json:"sets,omitempty"`
-	Dels    []string          `json:"dels,omitempty"`
-	ErrKind string            `json:"errkind,omitempty"` // compile | exception | other
-	Out     []string          `json:"out,omitempty"`
-	Final   map[string]string `json:"final,omitempty"`
-	Call    int64             `json:"call"`
-	Ret     int64             `json:"ret"`
-	OK      bool              `json:"ok"`
-	Err     string            `json:"err,omitempty"`
-	Task    int               `json:"task"`
-	outVal  []string
+	Reads    []string          `json:"reads,omitempty"`
+	Sets     map[string]string `json:"sets,omitempty"`
+	Dels     []string          `json:"dels,omitempty"`
+	Dep      bool              `json:"dep,omitempty"`       // calls the deprecated function first
+	DepShown int               `json:"dep_shown,omitempty"` // deprecation messages this evaluation printed
+	ErrKind  string            `json:"errkind,omitempty"`   // compile | exception | other
+	Out      []string          `json:"out,omitempty"`
+	Final    map[string]string `json:"final,omitempty"`
+	Call     int64             `json:"call"`
+	Ret      int64             `json:"ret"`
+	OK       bool              `json:"ok"`
+	Err      string            `json:"err,omitempty"`
+	Task     int               `json:"task"`
+	outVal   []string
 }
 
 type c39case struct {
@@ -136,6 +138,12 @@ func runC39(c *Ctx) {
 					parts = append(parts, "put $"+ref)
 				}
 				parts = append(parts, "use m1", "echo $m1:x")
+			case k == 8 && w.Chance(1, 2):
+				// the same chunk under the same source name calls a deprecated
+				// function: one call site, however many evaluations reach it
+				op.Kind = "dep"
+				op.Dep = true
+				parts = append(parts, "dep")
 			case k == 8:
 				// a definition published through the Go API (what edit:add-var does)
 				op.Kind = "extend"
@@ -152,6 +160,8 @@ func runC39(c *Ctx) {
 
 	ticks := map[string]int{}
 	useOK := map[string]int{}
+	opOf := map[string]*c39op{}       // goroutine -> the operation it is running
+	bodyRuns := map[string][]*c39op{} // module -> operations whose import ran its body
 	var lost []string
 	var races []string
 	var final map[string]string
@@ -166,7 +176,13 @@ func runC39(c *Ctx) {
 			ev.LibDirs = []string{dir}
 			// (in the builtin namespace, so that module code can call it)
 			ev.ExtendBuiltin(eval.BuildNs().AddGoFns(map[string]any{
-				"vtick": func(name string) { ticks[name]++; simrt.Yield("c39:tick") },
+				"vtick": func(name string) {
+					ticks[name]++
+					if op := opOf[simrt.SelfID()]; op != nil {
+						bodyRuns[name] = append(bodyRuns[name], op)
+					}
+					simrt.Yield("c39:tick")
+				},
 			}))
 			// A closure for the "call" operations, obtained before the concurrent phase.
 			var closure eval.Callable
@@ -184,12 +200,16 @@ func runC39(c *Ctx) {
 					panic(err)
 				}
 			}
+			if err := ev.Eval(parse.Source{Name: "[setup-dep]", Code: "fn dep { deprecate old-stuff }"}, eval.EvalCfg{}); err != nil {
+				panic(err)
+			}
 			done := make(chan struct{}, len(cs.Tasks))
 			for ti, ops := range cs.Tasks {
 				ti, ops := ti, ops
 				go func() {
 					defer func() { done <- struct{}{} }()
 					for _, op := range ops {
+						opOf[simrt.SelfID()] = op
 						outPort, collect, err := eval.CapturePort()
 						if err != nil {
 							panic(err)
@@ -200,6 +220,8 @@ func runC39(c *Ctx) {
 						switch op.Kind {
 						case "eval":
 							e = ev.Eval(parse.Source{Name: fmt.Sprintf("[t%d]", ti), Code: op.Code}, eval.EvalCfg{Ports: ports})
+						case "dep":
+							e = ev.Eval(parse.Source{Name: "[dep]", Code: op.Code}, eval.EvalCfg{Ports: ports})
 						case "extend":
 							ev.ExtendGlobal(eval.BuildNs().AddVar(op.Defs[0], vars.NewReadOnly("v"+op.Defs[0])))
 						case "check":
@@ -210,10 +232,11 @@ func runC39(c *Ctx) {
 							}
 						}
 						op.Ret = int64(simrt.CurStep()) * 2
-						vs, _ := collect()
+						vs, bs := collect()
 						for _, v := range vs {
 							op.outVal = append(op.outVal, fmt.Sprint(v))
 						}
+						op.DepShown = strings.Count(string(bs), "old-stuff")
 						op.OK = e == nil
 						op.Out = op.outVal
 						if e != nil {
@@ -302,14 +325,47 @@ func runC39(c *Ctx) {
 				continue
 			}
 			for _, m := range op.Uses {
-				if m == "mbad" {
+				if m != "mbad" {
+					continue
+				}
+				// The known finding is the CONCURRENT case: another import of
+				// mbad was executing while this evaluation ran. A success with
+				// no overlapping import is a different defect (e.g. a failed
+				// module left in the table) and is reported as such.
+				overlap := false
+				for _, o := range bodyRuns["mbad"] {
+					if o != op && o.Call < op.Ret && op.Call < o.Ret {
+						overlap = true
+					}
+				}
+				if overlap {
 					c.Violation("module-loading-visible", "evaluation %q (task %d) imported module mbad successfully although its body always fails: it saw the module-table entry of a concurrent import that was still executing", op.Code, op.Task)
+				} else {
+					c.Violation("failed-module-imported", "evaluation %q (task %d) imported module mbad successfully although its body always fails, and no other import of it was in progress at the time", op.Code, op.Task)
 				}
 			}
 		}
 	}
 	if len(lost) > 0 {
 		c.Violation("lost-definition", "%d global definitions published by completed operations are missing from the global namespace at the end (lost update): %s", len(lost), strings.Join(lost, "; "))
+	}
+	// 3e. a deprecation is shown once per call site and interpreter: in every
+	// sequential order the first evaluation that reaches it prints it, and
+	// nobody else does.
+	depRan, depShown := 0, 0
+	for _, task := range cs.Tasks {
+		for _, op := range task {
+			if op.Kind == "dep" && op.ErrKind != "compile" {
+				depRan++
+			}
+			depShown += op.DepShown
+		}
+	}
+	if depRan > 0 {
+		c.Probe("deprecated-function-called")
+	}
+	if (depRan > 0 && depShown != 1) || (depRan == 0 && depShown != 0) {
+		c.Violation("deprecation-once", "%d evaluations called the deprecated function (one call site) and the deprecation was printed %d times; in every sequential order it is printed exactly once", depRan, depShown)
 	}
 	// 3d. a global that resolved when an evaluation was compiled cannot vanish
 	// while it runs: sequentially, `put $q` either fails to compile or works.
@@ -436,7 +492,24 @@ func runC39(c *Ctx) {
 	// concurrently (in any sequential order the second `use` finds it loaded).
 	for _, m := range []string{"m1", "m2"} {
 		if useOK[m] > 0 && ticks[m] > 1 {
-			c.Violation("module-once", "module %s was imported successfully by %d evaluations and its body ran %d times; in every sequential order it runs once", m, useOK[m], ticks[m])
+			// The known finding is the CONCURRENT case: the imports that ran
+			// the body overlapped in time. A body that runs again in an
+			// evaluation that started after an earlier import had completed is
+			// a different defect (the module is not cached) and is reported as such.
+			runs := bodyRuns[m]
+			sequential := false
+			for i := range runs {
+				for j := range runs {
+					if runs[i] != runs[j] && runs[i].Ret < runs[j].Call {
+						sequential = true
+					}
+				}
+			}
+			if sequential {
+				c.Violation("module-reloaded", "module %s: an evaluation that started after an earlier evaluation had finished importing it evaluated the module's code again (%d executions in all): imported modules are not kept", m, ticks[m])
+			} else {
+				c.Violation("module-once", "module %s was imported successfully by %d evaluations and its body ran %d times; in every sequential order it runs once", m, useOK[m], ticks[m])
+			}
 		}
 	}
 }
